@@ -13,6 +13,7 @@
 //   - seeded schedule perturbation: GOMAXPROCS sweep, runtime.Gosched / short sleeps injected at the
 //     Directory, segment-plugin and event-callback seams,
 //   - re-open afterwards and check that every acknowledged batch is there,
+//
 // once in a plain child process and once in a child built with -race (mode=race). A
 // `WARNING: DATA RACE` report or a Close timeout is printed as the implementation result and the
 // Lean driver turns it into a `bad:` verdict; the seed + the stacks are the replay.
@@ -56,6 +57,7 @@ func (h) Rule() string {
 // shapes
 
 type shape struct {
+	Kind       string // "run": the mixed scenario through the bluge API; "probe-recycle": backward Advance on index.Snapshot postings iterators
 	Mode       string
 	Seed       uint64
 	W, B, D    int // writer goroutines, batches each, docs per batch
@@ -70,6 +72,7 @@ type shape struct {
 	Nap        int
 	MinMerge   int
 	CloseDelay int // microseconds between "callers returned" and Close
+	SlowRoot   int // microseconds slept in the verifTrace "root" seam (inside replaceRoot, i.e. inside every introduction)
 }
 
 func (s shape) line() string {
@@ -79,16 +82,21 @@ func (s shape) line() string {
 		}
 		return 0
 	}
-	return fmt.Sprintf("run mode=%s seed=%d w=%d b=%d d=%d r=%d s=%d q=%d p=%d dir=%s unsafe=%d ver=%d yield=%d stats=%d across=%d nap=%d minmerge=%d closedelay=%d",
-		s.Mode, s.Seed, s.W, s.B, s.D, s.R, s.S, s.Q, s.P, s.Dir, b(s.Unsafe), s.Ver, s.Yield, s.Stats, b(s.Across), s.Nap, s.MinMerge, s.CloseDelay)
+	kind := s.Kind
+	if kind == "" {
+		kind = "run"
+	}
+	return fmt.Sprintf(kind+" mode=%s seed=%d w=%d b=%d d=%d r=%d s=%d q=%d p=%d dir=%s unsafe=%d ver=%d yield=%d stats=%d across=%d nap=%d minmerge=%d closedelay=%d slowroot=%d",
+		s.Mode, s.Seed, s.W, s.B, s.D, s.R, s.S, s.Q, s.P, s.Dir, b(s.Unsafe), s.Ver, s.Yield, s.Stats, b(s.Across), s.Nap, s.MinMerge, s.CloseDelay, s.SlowRoot)
 }
 
 func parseShape(line string) (shape, error) {
 	var s shape
 	ws := strings.Fields(line)
-	if len(ws) < 2 || ws[0] != "run" {
+	if len(ws) < 2 || (ws[0] != "run" && ws[0] != "probe-recycle" && ws[0] != "probe-persist-close") {
 		return s, fmt.Errorf("not a run line")
 	}
+	s.Kind = ws[0]
 	for _, w := range ws[1:] {
 		kv := strings.SplitN(w, "=", 2)
 		if len(kv) != 2 {
@@ -132,6 +140,8 @@ func parseShape(line string) (shape, error) {
 			s.MinMerge = int(n)
 		case "closedelay":
 			s.CloseDelay = int(n)
+		case "slowroot":
+			s.SlowRoot = int(n)
 		default:
 			return s, fmt.Errorf("unknown key %q", kv[0])
 		}
@@ -171,17 +181,42 @@ func (h) Gen(r *hlib.Rand, tier string, scale int, emit func(string)) {
 		s.Nap = []int{0, 0, 1, 3}[r.Intn(4)]
 		s.MinMerge = []int{2, 2, 3, 100}[r.Intn(4)]
 		s.CloseDelay = []int{0, 0, 50, 500, 3000}[r.Intn(5)]
+		s.SlowRoot = []int{0, 0, 200, 2000}[r.Intn(4)]
+		if s.SlowRoot > 0 && s.Unsafe {
+			// aim Close at the introductions that follow the last batch
+			s.CloseDelay = r.Intn(4 * s.SlowRoot)
+		}
 		if tier == "thorough" && r.Chance(30) {
 			s.B = r.Range(6, 14)
 		}
 		// a fixed fraction of runs also calls index.Writer.Stats() concurrently (struct copy of the counters)
 		if k%4 == 3 {
 			s.Stats = 2
+			s.Ver = 1 // keep the two known race classes (Stats copy, ice v2 stored-field buffer) in separate runs
 		}
 		return s
 	}
 	for k := 0; k < nPlain; k++ {
 		emit(mk("plain", k).line())
+	}
+	// the recycling hand-off of postings iterators, driven directly through index.Snapshot: one goroutine
+	// seeks backwards (postingsIterator.Advance re-initialises itself after handing itself to the
+	// recycling list), the others allocate iterators of the same field from that list
+	// Close arriving while the introducer is inside introducePersist (gated through the verifTrace seam):
+	// the persister leaves prepareIntroducePersist through its `<-closeCh` case and cleans up the map it
+	// handed to the introducer
+	for k := 0; k < 1+nRace/40; k++ {
+		s := mk("race", 0)
+		s.Kind, s.Dir, s.Ver, s.Stats, s.P, s.Unsafe = "probe-persist-close", "fs", 1, 0, 4, true
+		emit(s.line())
+	}
+	for k := 0; k < 1+nRace/40; k++ {
+		s := mk("race", 0)
+		s.Kind, s.Dir, s.Ver, s.Stats, s.P = "probe-recycle", "mem", 1, 0, 4
+		s.Across = false // control: the same workload without the backward seek
+		emit(s.line())
+		s.Across = true
+		emit(s.line())
 	}
 	for k := 0; k < nRace; k++ {
 		emit(mk("race", k).line())
@@ -390,7 +425,7 @@ func runLine(line string, lineNo int, work string, r *lineResult) {
 		if len(ss) > 24 {
 			ss = append(ss[:24], "...")
 		}
-		res = fmt.Sprintf("race reports=%d pairs=%d %s [then: %s] file=%s", len(reports), len(sigs), strings.Join(ss, " ; "), res, filepath.Join(rdir, "race_reports.txt"))
+		res = fmt.Sprintf("race reports=%d pairs=%d %s [then: %s] offtable=%s file=%s", len(reports), len(sigs), strings.Join(ss, " ; "), res, offTable(reports), filepath.Join(rdir, "race_reports.txt"))
 		r.races = true
 	} else if strings.HasPrefix(res, "ok ") {
 		_ = os.RemoveAll(rdir)
@@ -444,6 +479,68 @@ func raceSignature(rep string) string {
 	}
 	sort.Strings(tops)
 	return strings.Join(tops, "<>")
+}
+
+var (
+	sitesOnce sync.Once
+	sites     map[string]bool
+)
+
+var reIndexFrame = regexp.MustCompile(`/index/([a-z_]+\.go):(\d+)`)
+
+// offTable: access frames of the reports that lie in package index (…/index/<file>.go:<line>, innermost
+// frame of an access) but are not a site of the extracted lock-set table (lean/BlugeGen/C15.sites.txt,
+// path in VERIF_C15_SITES): accesses the table does not cover.
+func offTable(reports []string) string {
+	sitesOnce.Do(func() {
+		if p := os.Getenv("VERIF_C15_SITES"); p != "" {
+			if b, err := os.ReadFile(p); err == nil {
+				sites = map[string]bool{}
+				for _, l := range strings.Split(string(b), "\n") {
+					if l != "" {
+						sites[l] = true
+					}
+				}
+			}
+		}
+	})
+	if sites == nil {
+		return "unknown"
+	}
+	miss := map[string]bool{}
+	for _, rep := range reports {
+		lines := strings.Split(rep, "\n")
+		for i := 0; i < len(lines); i++ {
+			l := strings.TrimSpace(lines[i])
+			if !(strings.HasPrefix(l, "Read at") || strings.HasPrefix(l, "Write at") || strings.HasPrefix(l, "Previous read at") || strings.HasPrefix(l, "Previous write at")) {
+				continue
+			}
+			// innermost non-runtime frame
+			for j := i + 1; j+1 < len(lines) && strings.TrimSpace(lines[j]) != ""; j += 2 {
+				fn := strings.TrimSpace(lines[j])
+				if strings.HasPrefix(fn, "runtime.") || strings.HasPrefix(fn, "sync/atomic.") {
+					continue
+				}
+				if strings.HasPrefix(fn, "github.com/blugelabs/bluge/index.") {
+					if m := reIndexFrame.FindStringSubmatch(lines[j+1]); m != nil {
+						if k := m[1] + ":" + m[2]; !sites[k] {
+							miss[k] = true
+						}
+					}
+				}
+				break
+			}
+		}
+	}
+	if len(miss) == 0 {
+		return "none"
+	}
+	var ks []string
+	for k := range miss {
+		ks = append(ks, k)
+	}
+	sort.Strings(ks)
+	return strings.Join(ks, ",")
 }
 
 func condenseCrash(s string) string {
@@ -521,7 +618,14 @@ func childMain(line, rdir string) {
 		return
 	}
 	runtime.GOMAXPROCS(sh.P)
-	res := scenario(sh, rdir)
+	var res result
+	if sh.Kind == "probe-recycle" {
+		res = probeRecycle(sh, rdir)
+	} else if sh.Kind == "probe-persist-close" {
+		res = probePersistClose(sh, rdir)
+	} else {
+		res = scenario(sh, rdir)
+	}
 	js, _ := json.Marshal(res.stats)
 	fmt.Println("STATS " + string(js))
 	fmt.Println("RESULT " + res.text)
@@ -559,6 +663,13 @@ func scenario(sh shape, rdir string) result {
 			return &yieldDir{Directory: memDir, sm: sm}
 		}
 		return &yieldDir{Directory: innerDirFunc(), sm: sm}
+	}
+	if sh.SlowRoot > 0 {
+		index.SetVerifTrace(func(w *index.Writer, kind string, snap *index.Snapshot, x uint64) {
+			if kind == "root" {
+				time.Sleep(time.Duration(sh.SlowRoot) * time.Microsecond)
+			}
+		})
 	}
 	var chill atomic.Value // *index.Writer
 	var evCount [16]uint64
@@ -897,6 +1008,180 @@ func scenario(sh shape, rdir string) result {
 			return result{fmt.Sprintf("lost writer=%d acked_prefix=%d of=%d", g, lastAck, len(lg.ops)), stats}
 		}
 	}
+	return result{"ok closed reopened acked_present", stats}
+}
+
+// probeRecycle: index.Snapshot.PostingsIterator / Advance / Close from several goroutines on ONE current
+// snapshot. Goroutine 0 performs backward seeks; the others allocate and release iterators of the same
+// field. Every goroutine only ever touches iterators it obtained itself.
+func probeRecycle(sh shape, rdir string) result {
+	stats := map[string]int{}
+	cfg := bluge.InMemoryOnlyConfig()
+	ic := cfg.VerifIndexConfig()
+	iw, err := index.OpenWriter(ic)
+	if err != nil {
+		return result{"open-error", stats}
+	}
+	r := hlib.NewRand(sh.Seed)
+	b := index.NewBatch()
+	for k := 0; k < 300; k++ {
+		id := fmt.Sprintf("d%d", k)
+		b.Update(bluge.Identifier(id), mkDoc(id, k, r))
+	}
+	if err := iw.Batch(b); err != nil {
+		return result{"batch-error", stats}
+	}
+	// recycling only happens on the CURRENT root: wait until persister and merger have settled (the root
+	// epoch unchanged over 8 looks, 50 ms apart), then check that an iterator really comes back from the list
+	var snap *index.Snapshot
+	stable, last := 0, uint64(0)
+	for tries := 0; tries < 400 && stable < 8; tries++ {
+		time.Sleep(50 * time.Millisecond)
+		c, _ := iw.Reader()
+		if c == nil {
+			continue
+		}
+		if e := c.VerifEpoch(); e == last {
+			stable++
+		} else {
+			stable, last = 0, e
+		}
+		_ = c.Close()
+	}
+	snap, _ = iw.Reader()
+	if snap == nil {
+		return result{"reader-error", stats}
+	}
+	it1, err1 := snap.PostingsIterator([]byte(vocab[0]), "body", true, true, true)
+	if err1 != nil {
+		return result{"probe-inadequate postings-iterator-error", stats}
+	}
+	_ = it1.Close()
+	it2, _ := snap.PostingsIterator([]byte(vocab[0]), "body", true, true, true)
+	if it2 != it1 {
+		return result{"probe-inadequate iterator-not-recycled (the snapshot is not the current root)", stats}
+	}
+	_ = it2.Close()
+	var wg sync.WaitGroup
+	var backward, allocs, shared uint64
+	var panics uint64
+	var g0cur atomic.Value // the iterator goroutine 0 is using right now (after its backward seek)
+	for g := 0; g < 4; g++ {
+		g := g
+		wg.Add(1)
+		go func() {
+			defer wg.Done()
+			defer func() {
+				if e := recover(); e != nil {
+					atomic.AddUint64(&panics, 1)
+				}
+			}()
+			for round := 0; round < 300; round++ {
+				term := vocab[(round+g)%len(vocab)]
+				it, err := snap.PostingsIterator([]byte(term), "body", true, true, true)
+				if err != nil {
+					return
+				}
+				atomic.AddUint64(&allocs, 1)
+				if g != 0 {
+					// double ownership, observed directly: we were handed the very iterator goroutine 0 is using
+					if cur, ok := g0cur.Load().(*segment.PostingsIterator); ok && cur != nil && *cur == it {
+						atomic.AddUint64(&shared, 1)
+					}
+				}
+				first, _ := it.Next()
+				for k := 0; k < 5; k++ {
+					if p, _ := it.Next(); p == nil {
+						break
+					}
+				}
+				if g == 0 && first != nil && sh.Across {
+					// seek backwards: the implementation restarts from the beginning
+					if _, err := it.Advance(first.Number()); err == nil {
+						atomic.AddUint64(&backward, 1)
+					}
+					held := it
+					g0cur.Store(&held)
+					for k := 0; k < 5; k++ {
+						if p, _ := it.Next(); p == nil {
+							break
+						}
+						runtime.Gosched()
+					}
+					g0cur.Store((*segment.PostingsIterator)(nil))
+				}
+				_ = it.Close()
+			}
+		}()
+	}
+	wg.Wait()
+	_ = snap.Close()
+	done := make(chan error, 1)
+	go func() { done <- iw.Close() }()
+	select {
+	case <-done:
+	case <-time.After(60 * time.Second):
+		return result{"close-timeout probe", stats}
+	}
+	stats["api_goroutines"] = 4
+	stats["probe_backward_seeks"] = int(backward)
+	stats["probe_iterators"] = int(allocs)
+	stats["probe_iterator_shared_with_user"] = int(shared)
+	if panics > 0 {
+		return result{"panic probe-recycle", stats}
+	}
+	return result{"ok closed mem-noreopen", stats}
+}
+
+// probePersistClose: one unsafe batch; the first introducePersist is held inside replaceRoot (verifTrace
+// "root" seam) until Close has closed closeCh; then everything is released. All API callers have returned
+// before Close is called.
+func probePersistClose(sh shape, rdir string) result {
+	stats := map[string]int{}
+	path := filepath.Join(rdir, "idx")
+	cfg := bluge.DefaultConfig(path)
+	ic := cfg.VerifIndexConfig()
+	ic.UnsafeBatch = true
+	ic.MinSegmentsForInMemoryMerge = 100
+	// The gate must not synchronise with the test (that would itself order the accesses): the seam only
+	// SLEEPS inside the first introducePersist, and Close is called at a fixed time that falls into that sleep.
+	var gated int32
+	index.SetVerifTrace(func(w *index.Writer, kind string, snap *index.Snapshot, x uint64) {
+		if kind == "root" && snap != nil && snap.VerifCreator() == "introducePersist" {
+			if atomic.AddInt32(&gated, 1) == 1 {
+				time.Sleep(1500 * time.Millisecond)
+			}
+		}
+	})
+	defer index.SetVerifTrace(nil)
+	iw, err := index.OpenWriter(ic)
+	if err != nil {
+		return result{"open-error", stats}
+	}
+	r := hlib.NewRand(sh.Seed)
+	b := index.NewBatch()
+	for k := 0; k < 20; k++ {
+		id := fmt.Sprintf("d%d", k)
+		b.Update(bluge.Identifier(id), mkDoc(id, k, r))
+	}
+	if err := iw.Batch(b); err != nil { // unsafe batch: returns once applied
+		return result{"batch-error", stats}
+	}
+	time.Sleep(700 * time.Millisecond) // the segment file is written and the persist handed over well within this
+	done := make(chan error, 1)
+	t0 := time.Now()
+	go func() { done <- iw.Close() }()
+	select {
+	case <-done:
+	case <-time.After(60 * time.Second):
+		buf := make([]byte, 1<<20)
+		n := runtime.Stack(buf, true)
+		_ = os.WriteFile(filepath.Join(rdir, "close_timeout_goroutines.txt"), buf[:n], 0o644)
+		return result{"close-timeout " + stuckSummary(string(buf[:n])), stats}
+	}
+	stats["probe_close_ms"] = int(time.Since(t0).Milliseconds())
+	stats["api_goroutines"] = 2
+	stats["probe_gated"] = int(atomic.LoadInt32(&gated))
 	return result{"ok closed reopened acked_present", stats}
 }
 
